@@ -215,7 +215,9 @@ func (m *Model) Predict(w WS, o BuildOpts) Prediction {
 		default:
 			v = May
 		}
-		if v == MustNot {
+		{
+			// (computed for every verdict: a forced target's change hash is affected as well, and if it is
+			// output-less it passes the effect on to its own dependants)
 			for _, d := range w.DirectDeps(t) {
 				if mode, runs := willRunMode[d]; runs && m.EntryDepModes[p.Keys[l]][d] != "" && m.EntryDepModes[p.Keys[l]][d] != mode {
 					p.ModeSwitch[l] = true
@@ -340,7 +342,25 @@ func (m *Model) Commit(w WS, o BuildOpts, p Prediction, started, ended map[strin
 // change hash under which t's own result was stored is unknown too.
 func depUncertain(w WS, t *Target, p Prediction) bool {
 	for _, d := range w.DirectDeps(t) {
-		if p.Verdict[d] == May || p.ModeSwitch[d] {
+		if outUncertain(w, d, p, 0) {
+			return true
+		}
+	}
+	return false
+}
+
+// outUncertain: the output hash that dependants of l saw in this build is not known to the model. An output-less
+// target exposes its own change hash, so the doubt about its dependencies travels through it.
+func outUncertain(w WS, l string, p Prediction, depth int) bool {
+	if p.Verdict[l] == May || p.ModeSwitch[l] {
+		return true
+	}
+	t := w.Target(l)
+	if t == nil || t.HasOutputs() || depth > 50 {
+		return false
+	}
+	for _, d := range w.DirectDeps(t) {
+		if outUncertain(w, d, p, depth+1) {
 			return true
 		}
 	}
